@@ -132,6 +132,10 @@ pub struct NetCase {
     pub which: Which,
     /// sizes relative to the limit, one RPC each
     pub deltas: Vec<i32>,
+    /// the whole list of sizes is probed this many times on the same connection (refusals must
+    /// stay confined however many of them a connection has seen)
+    #[serde(default)]
+    pub rounds: u8,
 }
 
 struct Sizes {
@@ -205,7 +209,10 @@ pub fn check_net(case: &NetCase, obs: &mut Obs) -> Result<(), Fail> {
         }
         let fits = |n: usize, l: Option<usize>| l.map_or(true, |l| n <= l);
         let mut near = false;
-        for (i, d) in case.deltas.iter().enumerate() {
+        let rounds = case.rounds.max(1) as usize;
+        let mut refusals_by_callee = 0u32;
+        let probes: Vec<i32> = std::iter::repeat(case.deltas.iter().copied()).take(rounds).flatten().collect();
+        for (i, d) in probes.iter().enumerate() {
             let target = (case.limit as i64 + *d as i64).max(0) as usize;
             let Some((req, sz, hm)) = build(&case.which, target, i as u64) else { obs.label("skipped:size-unreachable"); continue };
             let body = req.body().clone();
@@ -238,6 +245,7 @@ pub fn check_net(case: &NetCase, obs: &mut Obs) -> Result<(), Fail> {
             }
             if !(fits(sz.req_hdr, ls) && fits(sz.req_body, ls)) {
                 vensure!(b.rec.starts_of(i as u64).is_empty(), "c15:receiver-limit", "request exceeding the receiver's limit reached the handler");
+                if sender_req_ok { refusals_by_callee += 1; }
             }
             // confined to the RPC: the connection stays and a follow-up succeeds promptly
             vensure!(a.net.peers().contains(&b.id()), "c15:connection-torn-down", "after {:?}={target}: caller no longer lists the callee", case.which);
@@ -251,8 +259,9 @@ pub fn check_net(case: &NetCase, obs: &mut Obs) -> Result<(), Fail> {
         }
         sim.health()?;
         check_no_panics("during frame-limit probes")?;
-        obs.evals(case.deltas.len() as u64);
+        obs.evals(probes.len() as u64);
         obs.label(format!("placement:caller={} callee={}", case.at_caller, case.at_callee));
+        if refusals_by_callee >= 16 { obs.label("callee-refusals-on-one-connection>=16"); }
         if near { obs.nontrivial(&case); }
         Ok(())
     })
@@ -263,15 +272,15 @@ impl Part for Net {
     type Case = NetCase;
     fn name(&self) -> &'static str { "network" }
     fn rule(&self) -> &'static str {
-        "two networks on the fabric, limit L in 64..2^20 placed at caller / callee / both / neither; for one of {request header, request body, response header, response body} the sizes L-3..L+3 (enumerated) plus random sizes, one RPC each; frame sizes computed by the reference codec; oracle: Ok and intact iff every frame <= every applicable limit, else Err for that RPC only (returns within bounded virtual time, sender-side refusal immediate and nothing of the frame on the wire, handler not reached when the request is refused), connection still listed and a follow-up RPC succeeds; non-trivial = case containing sizes within +-3 of the limit; distinct by case"
+        "two networks on the fabric, limit L in 64..2^20 placed at caller / callee / both / neither; for one of {request header, request body, response header, response body} the sizes L-3..L+3 (enumerated) plus random sizes, one RPC each, the list repeated 1-8 times on the same connection (up to 40 refusals); frame sizes computed by the reference codec; oracle: Ok and intact iff every frame <= every applicable limit, else Err for that RPC only (returns within bounded virtual time, sender-side refusal immediate and nothing of the frame on the wire, handler not reached when the request is refused), connection still listed and a follow-up RPC succeeds; non-trivial = case containing sizes within +-3 of the limit; distinct by case"
     }
     fn strategy(&self, _t: Tier) -> BoxedStrategy<NetCase> {
         let which = prop_oneof![Just(Which::ReqHeader), Just(Which::ReqBody), Just(Which::RespHeader), Just(Which::RespBody)];
-        (prop_oneof![3 => 200u32..5000, 2 => 5000u32..200_000, 1 => 200_000u32..(1 << 20)], any::<bool>(), any::<bool>(), which, prop::collection::vec(-200_000i32..400_000, 0..3))
-            .prop_map(|(limit, at_caller, at_callee, which, extra)| {
+        (prop_oneof![3 => 200u32..5000, 2 => 5000u32..200_000, 1 => 200_000u32..(1 << 20)], any::<bool>(), any::<bool>(), which, prop::collection::vec(-200_000i32..400_000, 0..3), prop_oneof![4 => Just(1u8), 1 => 2u8..9])
+            .prop_map(|(limit, at_caller, at_callee, which, extra, rounds)| {
                 let mut deltas: Vec<i32> = (-3..=3).collect();
                 deltas.extend(extra);
-                NetCase { limit, at_caller, at_callee, which, deltas }
+                NetCase { limit, at_caller, at_callee, which, deltas, rounds }
             })
             .boxed()
     }
